@@ -51,10 +51,22 @@ class Tr:
         self.selfenv = dict(selfenv)
         self.funcs = funcs or {}
         self.fresh = 0
+        self.expanded: Dict[str, str] = {}
+        self.defidx: Dict[str, int] = {}
 
     def var(self) -> str:
         self.fresh += 1
         return f"x{self.fresh}"
+
+    def expand(self, text: str) -> str:
+        """sort key only: let-bound names replaced by their definitions, bound-variable numbers dropped"""
+        import re as _re
+        for _ in range(6):
+            new = _re.sub(r"[A-Za-z_][A-Za-z_0-9]*", lambda m: self.expanded.get(m.group(0), m.group(0)), text)
+            if new == text:
+                break
+            text = new
+        return _re.sub(r"\bx\d+\b", "x", text)
 
     # ---- literals ---------------------------------------------------------------------------
     @staticmethod
@@ -124,6 +136,11 @@ class Tr:
             x = self.var()
             return f"(List.map (fun {x} => {self.toK(lt, lk, lraw)} {op} {x}) {rt})", "V", None
         if lk == "V" and rk == "V":
+            # canonical operand order for the commutative operators: by expanded text, ties (e.g. two deviations
+            # from differently updated `mean`s, textually equal) by order of definition
+            key = lambda t: (self.expand(t), self.defidx.get(t, 10 ** 6))
+            if op in "+*" and key(lt) > key(rt):
+                lt, rt = rt, lt
             return f"(List.zipWith (fun a b => a {op} b) {lt} {rt})", "V", None
         raise Untranslatable(f"kinds {lk}{op}{rk}")
 
@@ -175,6 +192,8 @@ class Tr:
                 t, k = self.lit_K(raw), "S"
             if isinstance(tgt, ast.Name):
                 name = tgt.id
+                self.expanded[name] = self.expand(t)
+                self.defidx[name] = len(self.defidx)
                 self.env[name] = (name, k)
             elif isinstance(tgt, ast.Attribute) and isinstance(tgt.value, ast.Name) and tgt.value.id == "self":
                 name = tgt.attr
@@ -348,6 +367,10 @@ class TenTr:
         if isinstance(n, ast.BinOp) and type(n.op) in BIN and BIN[type(n.op)] in "+-*":
             op = BIN[type(n.op)]
             (lt, lk), (rt, rk) = self.expr(n.left), self.expr(n.right)
+            if op in "+*" and (lk, lt) > (rk, rt):
+                # canonical operand order for the commutative operators (by kind, then Lean text), so that a
+                # commuted source expression regenerates the same term
+                (lt, lk), (rt, rk) = (rt, rk), (lt, lk)
             if lk == "D" and rk == "D":
                 return f"({lt} {op} {rt})", "D"
             lt = lt if lk == "T" else f"(Ten.scalar {lt})"
